@@ -50,7 +50,7 @@ CHECKS = {
             "(to the second) against Date_Trace.",
             "Trusted: TLC, DateOps (OLE epoch 1899-12-30 = 0, as tests/test_date.py pins); decimals compared within 1e-9 days.",
             "DESIGN.md 4 C17"),
-    "C18": (["StrOps.tla", "Str.tla", "Str_Trace.tla"],
+    "C18": (["StrOps.tla", "Str.tla", "Str_Trace.tla", "StrNum.tla"],
             "TLA+ string algebra (reference operators over code-point sequences + driver machine mirroring the replace/join/"
             "reverse loops of string.ckl) model-checked by TLC; exported cases replayed on the interpreter; TLC trace validation "
             "of recorded calls on random adversarial strings",
@@ -132,7 +132,7 @@ CHECKS = {
             "(harness/machine.py). The families are finite and hand-designed; values are ints, booleans, strings, lists, sets, "
             "maps, objects and closures.",
             "DESIGN.md 4 C05"),
-    "C06": (["Val.tla", "ValLaws.tla", "ValCont.tla", "Val_Trace.tla"],
+    "C06": (["Val.tla", "ValLaws.tla", "ValCont.tla", "Val_Trace.tla", "ValEdit.tla"],
             "TLA+ value model (Equal / Members / map lookup) with the equivalence and congruence laws model-checked by TLC over a "
             "value universe and all insertion orders; pair tables and container scenarios replayed through ckl.values and through "
             "interpreted programs; TLC trace validation of recorded relations on random values",
@@ -165,7 +165,7 @@ CHECKS = {
             "12 known findings (pattern payloads that the pattern syntax cannot express, NULL as map key, equal representatives such "
             "as <<1, 1.0>>) are listed in known_findings.json.",
             "DESIGN.md 4 C08"),
-    "C09": (["SecureOps.tla", "Secure.tla", "Secure_Trace.tla"],
+    "C09": (["SecureOps.tla", "Secure.tla", "Secure_Trace.tla", "SecureCases.tla"],
             "TLA+ model of the capability gate (bind_native guard, module binding, flag shadowing/assignment, run registration) with "
             "the native table extracted from the current tree; TLC checks NoInsecureBound, FlagImmutable, OsTouchingImpliesInsecure; "
             "every transition replayed on secure interpreters with reachability / flag / audit-event / canary projection; TLC trace "
@@ -211,7 +211,7 @@ CHECKS = {
             "form and order; 11.8k commands are replayed on fresh interpreters with the module files written to a temp directory.",
             "Trusted: TLC, SessionOps; bundled modules, ~/.ckl/modules and path-like module specs are not modelled.",
             "DESIGN.md 4 C11"),
-    "C12": (["OrderOps.tla", "Order.tla", "Order_Trace.tla"],
+    "C12": (["OrderOps.tla", "Order.tla", "Order_Trace.tla", "Order_Rng.tla"],
             "TLA+ model of the enumeration sites with the internal order of sets/maps as nondeterminism (TLC: OrderIndependence over "
             "all permutations); the per-site sorted/raw table is derived from observation; 216 program templates executed in fresh "
             "processes under 8 (thorough 32) PYTHONHASHSEED values and 3 construction orders; TLC trace validation against the "
@@ -297,6 +297,16 @@ ADDENDA = {
            "faults inside modules, several file names.",
 }
 
+ADDENDA3 = {
+    "C06": " Round 3: every non-integral double is an exact model value (neighbours one ulp apart), dates are instants with microseconds; ValEdit.tla edits an object whose hash was taken and compares it with fresh values; 34 program- and API-level answers to 'same value?' must agree.",
+    "C07": " Round 3: the list forms of min / max (with key) as modelled scans in ValSort.tla, eleven enumeration sites each for sets and maps, dates below year 1000 and inside one second, composing characters, cmp functions returning any negative / positive int.",
+    "C09": " Round 3: the argument family is part of the spec (CallShapes: every path-like argument in every position beside every companion), names the binder knows are found by trying, another interpreter constructed before / after (OthersChangeNothing), 2 400 module specs that name no module, the command-line front ends with --secure.",
+    "C10": " Round 3: one module directory per interpreter, nested caller environments, loads that fail in the host, defining statements that fail themselves, interpreters constructed mid-history.",
+    "C12": " Round 3: near-duplicate strings (case, blanks, accents), 247 natives applied to sets and maps in every argument position, the seeded generator as its own machine (Order_Rng.tla, Determinism), stack-trace lines of failing calls.",
+    "C16": " Round 3: reads (with and without default) and compound element assignment as actions, opaque results, a map keyed by a list, default expressions, methods found on the prototype; non-secure natives swept in a sandbox; every function of three or more places executed at full arity.",
+    "C18": " Round 3: digit-sequence integers of any size, a template scanner S(tpl, env) (unclosed braces, digits and two-digit argument numbers are plain text), rounding with sign and magnitude (StrNum.tla), table-free laws for trim / upper / lower on 51 special code points.",
+}
+
 NOT_YET = "check not built yet in this round (planned, see DESIGN.md section 4)"
 
 
@@ -307,7 +317,7 @@ def main():
         if pid not in CHECKS:
             continue
         mods, tech, text, note, ref = CHECKS[pid]
-        text = text + ADDENDA.get(pid, "")
+        text = text + ADDENDA.get(pid, "") + ADDENDA3.get(pid, "")
         if pid == "C03":
             mods = mods + ["Env_Trace.tla"]
             text = text + C03_EXTRA
